@@ -234,7 +234,7 @@ def coq_obs(obs):
 
 
 COQ_HEADER = """Require Import List ZArith QArith Bool.
-Require Import PV.NOF.Gauss PV.NOF.Coeff PV.NOF.Fock PV.NOF.Model.
+Require Import PV.NOF.Gauss PV.NOF.Coeff PV.NOF.Fock PV.NOF.Model PV.NOF.FromExpr.
 Import ListNotations.
 """
 
